@@ -1,5 +1,5 @@
 (* Extraction of the EVM instruction model + specification for ocaml/evm/driver.ml.  ExtrOcamlBasic only. *)
-From AQ Require Import Lib.Bytes Lib.ExtractBase Evm.OpsModel Evm.OpsSpec Evm.OpsTableSpec.
+From AQ Require Import Lib.Bytes Lib.ExtractBase Evm.OpsModel Evm.OpsSpec Evm.OpsTableSpec Evm.OpsKeccak.
 Require Extraction.
 Require Import ExtrOcamlBasic.
 Extraction "../ocaml/evm/model.ml" base_anchor
@@ -13,4 +13,8 @@ Extraction "../ocaml/evm/model.ml" base_anchor
   spec_valid
   op_MLOAD op_MSTORE op_MSTORE8 op_MSIZE op_CALLDATALOAD op_DATACOPY op_RETURNDATACOPY op_PUSH op_DUP op_SWAP
   op_JUMP op_JUMPI mem_resize getDataBig
-  spec_CALLDATALOAD spec_PUSH spec_MLOAD spec_MSTORE spec_MSTORE8 spec_DATACOPY spec_DUP spec_SWAP.
+  spec_CALLDATALOAD spec_PUSH spec_MLOAD spec_MSTORE spec_MSTORE8 spec_DATACOPY spec_DUP spec_SWAP
+  op_SHA3 keccakZ spec_SHA3 op_ENV spec_ENV op_POP enforceRestrictions select_rules
+  GasTableHomestead_full GasTableHF1_full select_gastable_full gasBalance gasExtCodeSize gasSLoad gasSStore gasCall gasCallCode
+  gasDelegateCall gasStaticCall gasSuicide
+  C_sstore R_sstore C_extra C_call C_xfer C_selfdestruct R_selfdestruct.
